@@ -107,7 +107,7 @@ def out_error():
 def out_display(kind=0):
     data = [{'text/plain': '<Figure>', 'image/png': B64},
             {'text/plain': '<Figure 2>', 'image/png': B64_2},
-            {'application/json': {'a': [1, {'b': 2}], 'id': 7}, 'text/plain': '{...}'},
+            {'application/json': {'a': [1, {'b': 2}], 'id': 7}, 'text/plain': '{...}', 'text/LaTeX': '$a_1$\n'},   # media type with capitals
             {'text/html': '<b>x</b>\n<i>y</i>\n', 'text/plain': 'x y'}][kind % 4]
     return {'output_type': 'display_data', 'data': copy.deepcopy(data), 'metadata': {} if kind % 2 == 0 else {'image/png': {'width': 10}}}
 
@@ -341,6 +341,9 @@ def apply_edit(nb, op, rnd, where=None):
                     o['traceback'] = list(o['traceback']) + ['  File "x.py", line %d' % rnd.randint(1, 9)]
                 else:
                     o['data']['text/plain'] = o['data'].get('text/plain', '') + rnd.choice(['!', ' (new)'])
+                    for mk in [m for m in o['data'] if m != m.lower() and isinstance(o['data'][m], str)]:
+                        if rnd.random() < 0.7:
+                            o['data'][mk] = o['data'][mk] + rnd.choice(['$b$\n', '%'])
                     if 'image/png' in o['data'] and rnd.random() < 0.5:
                         o['data']['image/png'] = B64_2 if o['data']['image/png'] == B64 else B64
             else:
@@ -412,6 +415,21 @@ def triples(seed, count, maxcells=3, minors=(5, 4, 2), max_edits=2, ops=None):
                 continue
         if ops is None and u < 0.40:
             t = focused_triple(b, rnd)
+            if t is not None:
+                yield t
+                continue
+        if ops is None and u < 0.47:
+            t = transient_vs_delete_triple(b, rnd)
+            if t is not None:
+                yield t
+                continue
+        if ops is None and u < 0.55:
+            t = separate_edits_triple(b, rnd)
+            if t is not None:
+                yield t
+                continue
+        if ops is None and u < 0.60:
+            t = mixed_outputs_triple(b, rnd)
             if t is not None:
                 yield t
                 continue
@@ -492,6 +510,111 @@ def focused_triple(b, rnd):
     return copy.deepcopy(b), l, r
 
 
+def separate_edits_triple(b, rnd):
+    """Both sides edit the source of the SAME cell, in regions separated by untouched lines: one side works in the upper part,
+    the other in the lower part (deleting, changing or adding lines, including the first and the last line, with or without a
+    final newline)."""
+    if not b['cells']:
+        return None
+    i = rnd.randrange(len(b['cells']))
+    n = rnd.randint(7, 14)
+    lines = ['step_%02d = compute(%d)\n' % (k, k) for k in range(n)]
+    if rnd.random() < 0.3:
+        lines[rnd.randrange(n)] = '\n'
+    if rnd.random() < 0.3:
+        lines[-1] = lines[-1].rstrip('\n')
+    base = copy.deepcopy(b)
+    base['cells'][i]['source'] = ''.join(lines)
+
+    def edit(lo, hi, tag):
+        out = list(lines)
+        k = rnd.randint(lo, hi - 1)
+        how = rnd.randrange(4)
+        if how == 0:
+            del out[k]
+        elif how == 1:
+            out[k] = '# %s changed %d\n' % (tag, k) if out[k].endswith('\n') else '# %s changed %d' % (tag, k)
+        elif how == 2:
+            out.insert(k, '# %s added before %d\n' % (tag, k))
+        else:
+            m = min(hi, k + rnd.randint(1, 2))
+            del out[k:m]
+        return ''.join(out)
+    cut = n // 2
+    upper, lower = edit(0, cut - 1, 'upper'), edit(cut + 1, n, 'lower')
+    l, r = copy.deepcopy(base), copy.deepcopy(base)
+    if rnd.random() < 0.5:
+        upper, lower = lower, upper
+    l['cells'][i]['source'], r['cells'][i]['source'] = upper, lower
+    return base, l, r
+
+
+def mixed_outputs_triple(b, rnd):
+    """One code cell with two (or three) outputs: one output is changed by both sides in different places (no conflict: one side
+    its text, the other its metadata), a sibling output is changed by both sides on the same line (a real conflict), so that several
+    decisions end up on the same outputs path and patch the same output."""
+    cand = [i for i, c in enumerate(b['cells']) if c['cell_type'] == 'code']
+    if not cand:
+        return None
+    i = rnd.choice(cand)
+    table = ''.join('row %d of the table\n' % k for k in range(rnd.randint(3, 12)))
+    base = copy.deepcopy(b)
+    c = base['cells'][i]
+    c['execution_count'] = c['execution_count'] or 1
+    outs = [nbformat.from_dict({'output_type': 'display_data', 'data': {'text/plain': table, 'text/html': '<b>table</b>'},
+                                'metadata': {'isolated': False}}),
+            nbformat.from_dict(out_stream('line one\nline two\n'))]
+    if rnd.random() < 0.3:
+        outs.append(nbformat.from_dict(out_stream('tail\n', 'stderr')))
+    if rnd.random() < 0.5:
+        outs[0], outs[1] = outs[1], outs[0]
+    c['outputs'] = outs
+    l, r = copy.deepcopy(base), copy.deepcopy(base)
+    for nb, tag in ((l, 'LOCAL'), (r, 'REMOTE')):
+        for o in nb['cells'][i]['outputs']:
+            if o['output_type'] == 'stream' and o['name'] == 'stdout':
+                o['text'] = 'line one %s\nline two\n' % tag
+    dl = [o for o in l['cells'][i]['outputs'] if o['output_type'] == 'display_data'][0]
+    dr = [o for o in r['cells'][i]['outputs'] if o['output_type'] == 'display_data'][0]
+    dl['data']['text/plain'] = table + 'one more row\n'
+    dr['metadata']['isolated'] = True
+    if rnd.random() < 0.5:
+        l, r = r, l
+    return base, l, r
+
+
+def transient_vs_delete_triple(b, rnd):
+    """One side only re-runs / toggles transient fields of a code cell (execution counts, collapsed, scrolled), the other side
+    deletes that cell, all of its outputs, or one of its outputs: a removal against a patch that touches transient fields only."""
+    cand = [i for i, c in enumerate(b['cells']) if c['cell_type'] == 'code' and c['outputs']]
+    if not cand:
+        return None
+    i = rnd.choice(cand)
+    t = copy.deepcopy(b)
+    c = t['cells'][i]
+    kind = rnd.randrange(3)
+    if kind in (0, 2):
+        c['execution_count'] = (c['execution_count'] or 0) + rnd.randint(1, 5)
+        for o in c['outputs']:
+            if o['output_type'] == 'execute_result':
+                o['execution_count'] = c['execution_count']
+    if kind in (1, 2):
+        key = rnd.choice(['collapsed', 'scrolled'])
+        c['metadata'][key] = not c['metadata'].get(key, False)
+    d = copy.deepcopy(b)
+    how = rnd.randrange(3)
+    if how == 0:
+        del d['cells'][i]
+    elif how == 1:
+        d['cells'][i]['outputs'] = []
+    else:
+        outs = d['cells'][i]['outputs']
+        pref = [k for k, o in enumerate(outs) if o['output_type'] == 'execute_result'] or list(range(len(outs)))
+        del outs[rnd.choice(pref)]
+    l, r = (t, d) if rnd.random() < 0.5 else (d, t)
+    return copy.deepcopy(b), l, r
+
+
 def concurrent_line_triple(b, rnd):
     "same idea inside one cell's source: one side inserts blank lines around a line the other side also inserts"
     if not b['cells']:
@@ -514,7 +637,34 @@ def concurrent_line_triple(b, rnd):
     return copy.deepcopy(b), l, r
 
 
+def sweep_pairs(seed, minors=(5, 4)):
+    """Systematic part of the pair space: every cell of the pool x every edit operation aimed at that cell (the cell sits between
+    two neighbours so that moves, inserts and deletions have room), for each minor; the randomness inside an operation is seeded."""
+    rnd = random.Random(seed)
+    pool = cell_pool()
+    for minor in minors:
+        for ci, c in enumerate(pool):
+            cells = [pool[(ci + 5) % len(pool)], c, pool[(ci + 9) % len(pool)]]
+            try:
+                a = notebook(cells, minor=minor, ids=['n%d-%d' % (ci, k) for k in range(3)] if minor >= 5 else None)
+            except Exception:
+                continue
+            if validate_strict(a):
+                continue
+            for op in edit_ops():
+                try:
+                    b = apply_edit(a, op, rnd, where=1)
+                except Exception:
+                    continue
+                if validate_strict(b):
+                    continue
+                yield copy.deepcopy(a), b
+
+
 def pairs(seed, count, maxcells=3, minors=(5, 4, 2), max_edits=3):
+    if seed < 0:
+        yield from sweep_pairs(-seed)
+        return
     rnd = random.Random(seed)
     bases = base_notebooks(maxcells, minors)
     for k in range(count):
